@@ -469,11 +469,17 @@ def install():
 
 
 # ---------------------------------------------------------------------- one run
+FSCALE = 8     # float samples are played as v / 8 (dyadic, exact in float32): non-trivial float values
+
+
 def decode(b, dfmt):
+  """Bytes received by the device -> the integers of the case (exact; anything else is kept visible as a
+  value no case contains)."""
   n = len(b) // _struct.calcsize(dfmt)
   vals = _struct.unpack("%d%s" % (n, dfmt), b)
-  assert all(v == int(v) for v in vals)
-  return [int(v) for v in vals]
+  if dfmt in "fd":
+    vals = [v * FSCALE for v in vals]
+  return [int(v) if v == int(v) else 987654321 for v in vals]
 
 
 class SchedSource(object):
@@ -511,6 +517,10 @@ def make_audio(kind, data):
     src = SchedSource(data)
     return (v for v in src)
   return list(data)
+
+
+class BlockError(Exception):
+  """Raised by the control script inside a with-block of the manager."""
 
 
 class PlayerBoom(Exception):
@@ -584,7 +594,7 @@ def run_schedule(wait, script, choose, dfmt="f", max_steps=4000, strategy="struc
         fmt = cmd[4] if (k == "play" and len(cmd) > 4) else dfmt
         kind = cmd[5] if (k == "play" and len(cmd) > 5) else "list"
         how = cmd[6] if (k == "play" and len(cmd) > 6) else "kw"
-        data = [float(v) for v in cmd[3]] if fmt in "fd" else list(cmd[3])
+        data = [float(v) / FSCALE for v in cmd[3]] if fmt in "fd" else list(cmd[3])
         if k == "playbad":
           data = _raising(data[:cmd[4] * cmd[1] * cmd[2]])
         else:
@@ -605,11 +615,24 @@ def run_schedule(wait, script, choose, dfmt="f", max_steps=4000, strategy="struc
           t = e.players[cmd[1]]
           {"pause": t.pause, "resume": t.play, "stop": t.stop}[k]()
       elif k == "close":
+        via = cmd[1] if len(cmd) > 1 else close_via      # how the manager is closed: the model's CClose
         try:
-          if close_via == "terminate":
+          if via == "terminate":
             aio.terminate()
-          elif close_via == "exit":
+          elif via == "exit":
             aio.__exit__(None, None, None)
+          elif via == "with":
+            with aio:
+              pass
+          elif via == "exc":
+            # the with-block is left by an exception raised inside it: same close, then it propagates
+            try:
+              with aio:
+                raise BlockError()
+            except BlockError:
+              pass
+            else:
+              raise RuntimeError("the exception raised inside the with-block was swallowed")
           else:
             aio.close()
           e.events.append(["close_ret", flags()])
